@@ -55,3 +55,29 @@ def declare(E):
                         " and ghost('writes') == 1 and ghost('written_after_open')"},
                returns="none", raises={"OSError": {"when": "True", "ensures": ["implies(ghost('writes') >= 1, ghost('written_after_open'))"]},
                                        "Exception": {"when": "True", "ensures": ["implies(ghost('writes') >= 1, ghost('written_after_open'))"]}})
+
+
+def declare_ecdsa_blob(E):
+    """ECDSAKey.asbytes: the public blob is string(key format) string(curve name) string(04 || X || Y) with X and Y exactly as
+    wide as the curve's field (SEC1 2.3.5: fixed width, leading zero octets kept) - what makes the blob parse back"""
+    EK = "paramiko.ecdsakey.ECDSAKey."
+    E.declare_class("paramiko.ecdsakey.ECDSAKey", {"verifying_key": "opaque:EcPub", "ecdsa_curve": "obj:_ECDSACurve"})
+    E.declare_class("paramiko.ecdsakey._ECDSACurve", {"key_format_identifier": "str", "nist_name": "str"})
+    E.opaque_attrs = dict(getattr(E, "opaque_attrs", {}), EcPub={"curve": "opaque:EcCurve"}, EcCurve={"key_size": "int[1,1024]"},
+                          EcNums={"x": "nat", "y": "nat"})
+    # (assumed of the library: the coordinates are field elements, so they need at most ceil(key_size / 8) octets)
+    E.contract("EcPub.public_numbers", argnames=["self"], returns="opaque:EcNums",
+               ensures=["fn('octets_of', 'int', result.x) <= (self.curve.key_size + 7) // 8",
+                        "fn('octets_of', 'int', result.y) <= (self.curve.key_size + 7) // 8"])
+    # the minimal big-endian octets of n (no sign padding): as many as n needs, never more
+    E.contract("paramiko.util.deflate_long", argnames=["n", "add_sign_padding"], returns="bytes",
+               ensures=["len(result) == fn('octets_of', 'int', n)", "fn('octets_of', 'int', n) >= 0"])
+    SIZE = "((self.verifying_key.curve.key_size + 7) // 8)"
+    E.contract(EK + "asbytes",
+               requires={"names_are_short": "len(self.ecdsa_curve.key_format_identifier) < 256 and len(self.ecdsa_curve.nist_name) < 256"
+                                            " and len(utf8enc(self.ecdsa_curve.key_format_identifier)) < 2**32"
+                                            " and len(utf8enc(self.ecdsa_curve.nist_name)) < 2**32"},
+               ensures={"point_is_04_followed_by_two_coordinates_of_exactly_the_field_width":
+                        "len(result) == 4 + len(utf8enc(self.ecdsa_curve.key_format_identifier)) + 4 + len(utf8enc(self.ecdsa_curve.nist_name))"
+                        " + 4 + 1 + 2 * %s" % SIZE},
+               returns="bytes", raises={}, modifies=[])
